@@ -126,13 +126,20 @@ def make_case(ctx, c):
     return pipe, left, right, {"c": c, "pipeline": keys, "shape": [rows, cols], "bands": nb, "method": method, "subpix": subpix}
 
 
-def run_once(pipe, left, right, machine=None):
-    """Returns (full digest, partial digest) - partial = disparity map + pre-validation flags (left side)."""
+def run_once(pipe, left, right, machine=None, cfg_box=None):
+    """Returns (full digest, partial digest) - partial = disparity map + pre-validation flags (left side).
+    cfg_box: a dict holding the checked configuration object of an earlier call under "cfg": it is then run again as it is
+    (documented usage: a configuration is checked once and run any number of times)."""
     import pandora
 
     m = machine or pipes.new_machine()
-    pipes.check(m, pipe, left, right)
-    cfg = pipes.checked_cfg(m, pipe)
+    if cfg_box is not None and "cfg" in cfg_box:
+        cfg = cfg_box["cfg"]
+    else:
+        pipes.check(m, pipe, left, right)
+        cfg = pipes.checked_cfg(m, pipe)
+        if cfg_box is not None:
+            cfg_box["cfg"] = cfg
     pre = {}
 
     def before(ev, mm):
@@ -163,10 +170,12 @@ def run_case(case, ctx):
     li, ri = gen.ds_digest(left), gen.ds_digest(right)
     fulls, parts = [], []
     m = None
+    box: dict = {}
     for rep in range(case["reps"]):
-        # repetition 0: fresh machine; 1: the same machine again; 2+: fresh machines
+        # repetition 0: fresh machine; 1: the same machine again, with the very configuration object of repetition 0;
+        # 2+: fresh machines and freshly checked configurations
         mach = m if rep == 1 else None
-        full, part, m_used = run_once(pipe, left, right, mach)
+        full, part, m_used = run_once(pipe, left, right, mach, box if rep <= 1 else None)
         if rep == 0:
             m = m_used
         fulls.append(full)
